@@ -407,8 +407,14 @@ class Assembler:
             if lp.get('decreases'):
                 txt += '            decreases %s\n' % lp['decreases']
             if lp.get('iter'):
-                # for-loop ghost iterator name:  for x in it: expr
-                pass
+                # for-loop ghost iterator name:  `for x in EXPR` -> `for x in <iter>: EXPR`  (ghost name only)
+                kk = _kw + 1
+                while kk < kopen and not s.is_id(kk, 'in'):
+                    kk += 1
+                if kk >= kopen:
+                    raise ExtractError('lost anchor: loop %d of fn %s is not a for-loop' % (kidx, fnname))
+                ed.insert(s.t[kk][2], ' %s:' % lp['iter'])
+                self.fired.add('2b:name-for-loop-ghost-iterator')
             ed.insert(s.t[kopen][1], '\n' + txt + '        ', order=-1)
             self.fired.add('2:loop-splice')
         closures = fp.closures()
